@@ -4,8 +4,8 @@
     [SpecTxBuilder::build_commitment_transaction], [CommitmentTransaction] output values and
     [build_closing_transaction]) on top of the rs2v-GENERATED fee/dust/anchor functions. *)
 Require Import LdkV.Prim.U64 LdkV.Prim.Rs2vLib LdkV.Gen.Consts LdkV.Gen.ChanUtilsFees LdkV.Gen.TxBuilder
-  LdkV.Model.CommitAmounts LdkV.Model.Chan LdkV.Model.ChanSys
-  LdkV.Proofs.C01Amounts LdkV.Proofs.C01Limits LdkV.Proofs.C01Chan.
+  LdkV.Gen.C01Closing LdkV.Model.CommitAmounts LdkV.Model.Chan LdkV.Model.ChanSys LdkV.Model.CoopClose
+  LdkV.Proofs.C01Amounts LdkV.Proofs.C01Limits LdkV.Proofs.C01Chan LdkV.Proofs.C01Close.
 From Coq Require Import Permutation.
 Open Scope Z_scope.
 
@@ -199,6 +199,57 @@ Theorem C01_limits_accept_sender :
      else c_hc c' = c_hc c ++ [HC_Add amt tag] /\ c_out c' = c_out c) /\
     c_in c' = c_in c /\ c_self_msat c' = c_self_msat c.
 Proof. exact limits_accept. Qed.
+
+(** The "keep at least one output" guard of the send limits (GENERATED
+    [adjust_min_max_htlc_if_max_dust_htlc_produces_no_output], as [get_available_balances] calls it): the
+    interval only shrinks, and every positive amount inside it that the holder owns is, on the HOLDER's
+    commitment, non-dust under the HOLDER's dust limit (+ HTLC-timeout fee) or leaves an output there, and
+    on the COUNTERPARTY's commitment non-dust under the COUNTERPARTY's dust limit (+ HTLC-success fee) or
+    leaves an output there. (The two limits are distinct arguments: swapping them breaks the proof.) *)
+Theorem C01_send_limits_keep_an_output :
+  forall funder hb cb lnd rnd fr k ct mn cap mn' cap',
+  guard_range hb cb fr lnd (cst_holder_dust_limit_satoshis k) ->
+  guard_range hb cb fr rnd (cst_counterparty_dust_limit_satoshis k) ->
+  adjust_min_max_htlc_if_max_dust_htlc_produces_no_output funder hb cb lnd rnd fr k ct mn cap = (mn', cap') ->
+  mn <= mn' /\ cap' <= cap /\
+  forall a, 0 < a -> mn' <= a <= cap' -> a <= hb ->
+    (min_nondust_msat true fr (cst_holder_dust_limit_satoshis k) ct <= a \/
+     has_output funder (hb - a) cb fr lnd (cst_holder_dust_limit_satoshis k) ct = true) /\
+    (min_nondust_msat false fr (cst_counterparty_dust_limit_satoshis k) ct <= a \/
+     has_output funder (hb - a) cb fr rnd (cst_counterparty_dust_limit_satoshis k) ct = true).
+Proof. exact send_limits_keep_an_output. Qed.
+
+(** Cooperative close, fee-range negotiation ([Model/CoopClose.v] over the GENERATED
+    [calculate_closing_fee_limits] arithmetic and [closing_signed] clamps): the non-funder's maximum is the
+    funder's whole-satoshi balance; whenever the funder can pay its OWN minimum fee, the negotiation fails only
+    if the two ranges are disjoint or the non-funder's minimum exceeds the funder's balance (finding F6:
+    the middle clause is its witness for ALL such inputs), nobody is ever asked to build a closing
+    transaction for more than the funder owns, the agreed fee is in both ranges and within the funder's
+    balance, and the transaction pays the funder floor(balance)
+    less the fee and the non-funder floor(balance) (dust-zeroed). *)
+Theorem C01_coop_close_negotiation :
+  forall kf kn v sf sn,
+  close_pre kf kn v sf sn ->
+  let bal_f := sf / 1000 in
+  let '(f_min, f_max) := closing_fee_limits kf true v sf in
+  let '(n_min, n_max) := closing_fee_limits kn false v sn in
+  n_max = bal_f /\
+  (f_min <= bal_f ->
+     (f_max < n_min -> is_ok (negotiate kf kn v sf sn) = false) /\
+     (bal_f < n_min <= f_max -> f_min < bal_f -> is_ok (negotiate kf kn v sf sn) = false) /\
+     (n_min <= f_max -> n_min <= bal_f ->
+        exists fee built, negotiate kf kn v sf sn = ROk (fee, built) /\
+          f_min <= fee <= f_max /\ n_min <= fee <= n_max /\ fee <= bal_f /\
+          Forall (fun f => 0 <= f <= bal_f) built /\
+          exists h c, build_closing true false v sf fee (cs_dust kf) = ROk (h, c, fee) /\
+            h = (if bal_f - fee <=? cs_dust kf then 0 else bal_f - fee) /\
+            c = (if sn / 1000 <=? cs_dust kf then 0 else sn / 1000))).
+Proof. exact coop_close. Qed.
+
+Example C01_close_pre_inhabited : close_pre ex_kf ex_kn 100000 1540000 98460000.
+Proof. exact ex_close_pre. Qed.
+Example C01_negotiate_example : negotiate ex_kf ex_kn 100000 1540000 98460000 = ROk (1540, [202; 1540]).
+Proof. exact ex_negotiate. Qed.
 
 (** Witnesses (vm_compute over the generated code / the closing model) of the two findings recorded in
     known_findings.json: the property's "limits are honoured by the peer" fails for a non-funder sending to a
